@@ -238,10 +238,10 @@ reg(C02("C02"))
 
 class C03(TreeCheck):
     obligations = [("main", "LinesAccounted", "no_duplication"), ("main", "LinesAccounted", "no_loss"), ("main", "LinesAccounted", "cover_le_one"), ("main", "LinesAccounted", "no_loss_raw_all"),
-                   ("main", "LAFull", "C03_no_dup_partial"), ("main", "L2BndS", "parseBlocks_bounds"), ("main", "NoUnpFull", "C05_noUnparsed")]
+                   ("main", "LAFull", "C03_no_dup_partial"), ("main", "CoverInline", "parseInlines_coverage_partial"), ("main", "CoverInline", "parseInlines_C03"), ("main", "CoverInline", "parseInlines_coverage_refuted"), ("main", "CoverBlocks", "parseInlines_no_dup"), ("main", "L2BndS", "parseBlocks_bounds"), ("main", "NoUnpFull", "C05_noUnparsed")]
     proj = staticmethod(proj_leaves)
     what = "leaf spans"
-    assumptions = ["block layer, every input, no exception (LinesAccounted.no_duplication / no_loss): the inline entries of leaf blocks, the label/destination/title children of definitions and the list markers are pairwise disjoint and ordered, and every letter, digit or non-ASCII byte of every root's Source lies in exactly one of them: everything the block layer drops (markers, fences, closing sequences, underlines, blank lines, the punctuation of a definition) is non-textual", "after the inline pass: no byte is covered by two leaves (LAFull.C03_no_dup_partial, first conjunct of Props.chk_C03_root for every position) under the executable entry condition that the C02 check evaluates on the implementation's pre-inline trees; that the inline parser keeps every textual byte of an entry in exactly one leaf is not yet proved: decided by the correspondence, the coverage oracle and the formal statement evaluated on the implementation's trees"]
+    assumptions = ["block layer, every input, no exception (LinesAccounted.no_duplication / no_loss): the inline entries of leaf blocks, the label/destination/title children of definitions and the list markers are pairwise disjoint and ordered, and every letter, digit or non-ASCII byte of every root's Source lies in exactly one of them: everything the block layer drops (markers, fences, closing sequences, underlines, blank lines, the punctuation of a definition) is non-textual", "after the inline pass: no byte is covered by two leaves (LAFull.C03_no_dup_partial, first conjunct of Props.chk_C03_root for every position) under the executable entry condition that the C02 check evaluates on the implementation's pre-inline trees; through the inline parser: for every leaf block meeting the entry condition and the executable column bound colsOK (the Indent entries stand for at most len src + 8 columns: true of every block-layer output, at most 3 columns per line), every textual byte of every Unparsed entry lies in exactly one leaf of parseInlines — emphasis, code spans, links and images, labels, raw HTML, autolinks, entities included (CoverInline.parseInlines_coverage_partial / parseInlines_C03); without the column bound the statement is false on the MODEL only (parseInlines_coverage_refuted: 20 consecutive 3-column Indent entries exhaust the model's reader fuel; Go has no such bound and no block-layer output looks like that); what is not proved is the composition into Props.C03_statement for whole documents (colsOK and the entry condition for every input): decided by the correspondence, the coverage oracle and the formal statement evaluated on the implementation's trees"]
 
 
 reg(C03("C03"))
@@ -375,8 +375,9 @@ reg(C10("C10"))
 # ---- C20 -----------------------------------------------------------------------------------------
 class C20(Check):
     rule = DOC_RULE + "; writer failing at every call index up to 40 (first clause); canonical-style documents from the abstract-document generator (second clause)"
-    obligations = [("misc", "Sticky", "C20_sticky"), ("misc", "Sticky", "C20_first_error"), ("misc", "Sticky", "C20_healthy"), ("main", "Entry", "formatDoc_formatRoots")]
-    assumptions = ["clause 1 proved on the formatWriter model for any operation sequence; clause 2 (round trip on the construct set fixed in DESIGN.md section 7) is decided by the oracle on generated canonical documents, not proved",
+    obligations = [("misc", "Sticky", "C20_sticky"), ("misc", "Sticky", "C20_first_error"), ("misc", "Sticky", "C20_healthy"), ("main", "Entry", "formatDoc_formatRoots"),
+                   ("main", "SliceFormat", "C20_format_preserves_render"), ("main", "SliceFormat", "C20_format_idempotent"), ("main", "SliceFormat", "formatDoc_text")]
+    assumptions = ["clause 1 proved on the formatWriter model for any operation sequence; clause 2 is proved end to end on a slice (SliceFormat.C20_format_preserves_render / C20_format_idempotent: for every one-line text paragraph of any length, formatting preserves the rendering and is idempotent, with no side condition since repair 1fffec0: the proof attempt found defect D25); on the rest of the construct set fixed in DESIGN.md section 7 it is decided by the oracle on generated canonical documents",
                    "determinism and 'tree untouched' are observed on the implementation"]
 
     def jobs(self, seed, tier):
@@ -631,8 +632,10 @@ class C14(Check):
                    ("recog", "ATXProof", "parseATXHeading_correct"),
                    ("main", "EolInv", "recognizers_eol_invariant"), ("main", "EolInv", "recognizers_eolRun_invariant"),
                    ("main", "BlankPrefix", "parseBlocks_blank_prefix_partial"), ("main", "BlankPrefix", "skipLoop_blank_prefix_partial"),
-                   ("main", "BlankPrefix", "parseBlocks_blank_prefix_of_total"), ("main", "Uncond", "parseBlocks_blank_prefix")]
-    assumptions = ["partial: the padding clause is proved on the concrete block machine (parseBlocks_blank_prefix_partial: parseBlocks (B ++ s) = shifted parseBlocks s for blank-line prefixes B, under the side condition that a CR ending B does not fuse with an LF starting s ; Uncond.parseBlocks_blank_prefix is the statement without any fuel condition, by the totality theorem of the block layer) and for any block machine (nb_shift); all five recognizers are proved independent of the line-ending style and of its presence (recognizers_eol_invariant, any run of CR/LF bytes); the whole-parser simulation for the CRLF/CR and final-newline clauses is not proved: correspondence on the variants plus the oracle"]
+                   ("main", "BlankPrefix", "parseBlocks_blank_prefix_of_total"), ("main", "Uncond", "parseBlocks_blank_prefix"),
+                   ("main", "EolCR", "parseBlocks_cr"), ("main", "EolRefuted", "final_newline_unrestricted_refuted"), ("main", "EolRefuted", "crlf_unrestricted_refuted")]
+    slow_files = ["EolFinal", "EolCRLF", "EolStruct"]
+    assumptions = ["partial: the padding clause is proved on the concrete block machine (parseBlocks_blank_prefix_partial: parseBlocks (B ++ s) = shifted parseBlocks s for blank-line prefixes B, under the side condition that a CR ending B does not fuse with an LF starting s ; Uncond.parseBlocks_blank_prefix is the statement without any fuel condition, by the totality theorem of the block layer) and for any block machine (nb_shift); all five recognizers are proved independent of the line-ending style and of its presence (recognizers_eol_invariant, any run of CR/LF bytes); the CR clause is proved at the block layer for every input without CR (EolCR.parseBlocks_cr: replacing LF by CR changes nothing but the Source bytes: trees, offsets, lines and normalised labels are literally equal); for the final-newline and the CRLF clauses the exact tree relations are executable checkers (EolFinalDefs, EolCRLFDefs), each refuted without a restriction (EolRefuted: ' <?>' changes the tree but not the safe rendering; a 996-byte label with three line endings is finding D24) and, restricted, proved only for all inputs of length <= 5 over four alphabets and for 65 640 documents of 1-3 lines (coq/slow, compiled in the thorough tier): the unbounded simulation for those two clauses is still open; correspondence on the variants plus the oracle decide them"]
 
     def jobs(self, seed, tier):
         base = nocr_docs(seed, tier, 1200, 50000)
@@ -667,10 +670,9 @@ reg(C14("C14"))
 
 # ---- C16 / C09 -------------------------------------------------------------------------------------
 class C16(Check):
-    level = "other"
     rule = DOC_RULE + "; weight on lists ending in blank lines, unclosed fences, HTML blocks, setext headings, definitions followed by text"
-    obligations = [("main", "L2BndS", "parseBlocks_bounds"), ("main", "C01a", "C01_ordered"), ("stream", "C14b", "nb_shift")]
-    assumptions = ["no theorem states the re-parse property yet; what is machine-checked are the supporting invariants (root blocks are cut at ends bounded by the line read; shifting by a blank prefix); the property itself is decided by the re-parse oracle on the implementation and by the full-tree correspondence"]
+    obligations = [("main", "SliceReparse", "C16_reparse_paras"), ("main", "SliceReparse", "C16_two_paragraphs"), ("main", "SliceReparse", "C16_reparse_last"), ("main", "L2BndS", "parseBlocks_bounds"), ("main", "C01a", "C01_ordered"), ("stream", "C14b", "nb_shift")]
+    assumptions = ["the property is proved end to end on a slice only: for any number of one-line text paragraphs separated by a blank line, every root's Source parsed alone gives exactly that root (line 1, offset 0) — up to the model's internal lastLineBlank flag of a root followed by a blank line, which no accessor exposes (SliceReparse.C16_reparse_paras; the literal statement including that flag is refuted, ex_reparse_flag); for general inputs what is machine-checked are the supporting invariants (root blocks are cut at ends bounded by the line read; shifting by a blank prefix); the property itself is decided by the re-parse oracle on the implementation and by the full-tree correspondence"]
 
     def jobs(self, seed, tier):
         cases = [(d, "") for d in docs(seed, tier, quick=3000, thorough=150000)]
@@ -701,10 +703,10 @@ def nest_docs(seed, tier):
 
 
 class C09(Check):
-    level = "other"
     rule = "tab-free, CR-free documents (spec examples + token soup with multi-line links, titles, raw tags, code spans, setext headings, definitions); quote prefix '> ' and list markers -, +, 7., 12) with 1..4 spaces"
-    obligations = [("main", "L2CCfull", "parseFull_contain"), ("main", "NoPanicAll", "parseBlocks_no_panic")]
-    assumptions = ["no theorem states the nesting property yet; the property is decided by the nesting oracle on the implementation (safe-mode HTML of D vs. of the contents of quote(D) / item(D)) and by the correspondence of model and implementation on D, quote(D) and item(D)"]
+    obligations = [("main", "SliceNest", "C09_quote"), ("main", "SliceNest", "C09_bullet_item"), ("main", "SliceNest", "C09_ordered_item"), ("main", "SliceMulti", "C09_quote_lines"),
+                   ("main", "L2CCfull", "parseFull_contain"), ("main", "NoPanicAll", "parseBlocks_no_panic")]
+    assumptions = ["the property is proved end to end on a slice only: for text lines of any length (letters, digits, single spaces, escaped punctuation), '> ' before one line, or before each of several lines forming one paragraph, yields one block quote whose content is exactly the paragraph shifted by the prefix-removal map, and the rendering is <blockquote> around the rendering of D (SliceNest.C09_quote, SliceMulti.C09_quote_lines); one line behind a bullet or one-digit ordered marker yields the one-item list with [marker; paragraph shifted] (C09_bullet_item, C09_ordered_item); for general D the property is decided by the nesting oracle on the implementation (safe-mode HTML of D vs. of the contents of quote(D) / item(D)) and by the correspondence of model and implementation on D, quote(D) and item(D)"]
 
     def jobs(self, seed, tier):
         base = nest_docs(seed, tier)
@@ -966,7 +968,6 @@ reg(C18("C18"))
 
 # ---- C06 -----------------------------------------------------------------------------------------
 class C06(Check):
-    level = "other"
     rule = "abstract documents (paragraphs, ATX/setext headings, thematic breaks, fenced/indented code, block quotes, tight/loose bullet and ordered lists nested to depth 3, HTML blocks, definitions; text, escapes, entities, emphasis, code spans, inline/reference links, images, autolinks, raw tags, hard and soft breaks) serialised with random choices of marker characters, fence lengths, indentation widths, LF/CRLF and escaping style; expected HTML from the generator's own denotation; distinct by serialisation"
     obligations = [("main", "EmphRender", "C06_emphasis_slice"), ("main", "EmphRender", "C06_slices"), ("main", "RefSliceMain", "C12_refslice"), ("main", "SliceText", "C06_escaped_text"), ("main", "SliceCode", "C06_code_verbatim"), ("main", "SliceText", "C06_escaped_text_any_cfg"), ("main", "SliceCode", "C06_code_verbatim_any_cfg"), ("main", "C07final", "C07_final"), ("main", "RenderWalkProof", "C10_appendBlock"), ("recog", "ATXProof", "parseATXHeading_correct"), ("main", "Rec17", "parseCodeFence_sound")]
     assumptions = ["the two clauses the property singles out are proved on the model for inputs of any length: C06_escaped_text (a one-line paragraph of letters, digits, single spaces and backslash-escaped ASCII punctuation renders to exactly that text, HTML-escaped) and C06_code_verbatim (a backtick-fenced block whose fence is longer than any backtick run at the start of a line renders its lines verbatim, HTML-escaped), for every configuration without tag filter", "the whole-pipeline statement (render (parse (serialize d)) = denote d) is not proved; supporting theorems (recognizers = definitions, renderer = structural reading) are machine-checked; the property is decided by the oracle comparing the implementation's HTML with the generator's denotation, and by the model/implementation correspondence on the same serialisations",
